@@ -3,6 +3,8 @@
 -/
 import TinyHttpModel.WireSpec
 import TinyHttpModel.Lemmas.BodyRead
+import TinyHttpModel.Lemmas.PipelineReads
+import TinyHttpModel.Props.C18
 
 namespace TH.Props.C03
 open TH
@@ -107,5 +109,503 @@ theorem no_framing_no_body (hs : List Header) (fr : Framing)
 example : (Body.readUpTo 100 (.chunked none) 3 50
     (Spec.renderChunked [⟨b!"0A", b!";x=1", b!"0123456789"⟩, ⟨b!"1", [], b!"Z"⟩] b!"00" ++ b!"GET /next") .open)
     = (b!"0123456789Z", some .eof, .done, b!"GET /next") := by decide
+
+/-! ### end to end: what every handler of a pipeline obtains from its body, exactly -/
+
+open TH.Props.C09 (SentBody CMsg cmsgBytes wellBodied)
+open TH.Props.C18 (expects expectBodied)
+
+/-- Is the body read from the socket while the handler reads it (`true`), or was it buffered when
+    the request was parsed / is there none (`false`)?  The rule of `framingOf`, literally: a chunked
+    body is always streamed; a Content-Length body of `n` bytes is streamed iff `n ≠ 0` and
+    (`n > 1024` or the request carries `Expect: 100-continue`); no body: nothing to stream.
+    The distinction is observable through ONE thing only: a `read` with an empty buffer
+    (`Action.zeroRead`), see `readPlanResult`. -/
+def streamed (m : CMsg) : Bool :=
+  match m.body with
+  | .plain body => body.length != 0 && (decide (Extracted.smallBodyLimit < body.length) || expects m)
+  | .chunked _ _ => true
+  | .absent => false
+
+/-- What a handler with action `a` obtains — the bytes, and how its reads ended — from a body
+    whose content is `payload`, on a connection where the whole body is on the wire.  The rules of
+    `handle`, literally:
+    * it never calls `as_reader()` (`asReaderCalls = 0`), or it tries to obtain `readTotal = 0`
+      bytes: nothing, no end observed (`readTotal > 0` with `asReaderCalls = 0` is "nothing" too:
+      without a reader there is no read);
+    * otherwise, if it first performs a `read` with an EMPTY buffer (`zeroRead`) and the body is
+      `streamed`: nothing, and end-of-stream — the `0` that read returns is taken for the end of the
+      body by the EOF fuse, the reader is dropped and the body discarded (a buffered body is not
+      fused: the empty-buffer read changes nothing);
+    * otherwise the first `min readTotal payload.length` bytes of the payload, and end-of-stream
+      exactly when it asked for MORE than the payload holds (asking for exactly `payload.length`
+      bytes returns them all without observing the end).
+    `bufSize` does not occur: reading with any buffer size gives the same result, and the model
+    treats `bufSize = 0` as `1` (`max a.bufSize 1`).  The end is never `.err` nor `.pending`. -/
+def readPlanResult (a : Action) (streamed : Bool) (payload : Bytes) : Bytes × ReadEnd :=
+  if a.asReaderCalls > 0 && a.readTotal > 0 then
+    if a.zeroRead && streamed then ([], .eof)
+    else (payload.take a.readTotal, if payload.length < a.readTotal then .eof else .none)
+  else ([], .none)
+
+/-- the buffer size is irrelevant (`bufSize = 0` included) -/
+theorem readPlanResult_bufSize (a : Action) (buf : Nat) (st : Bool) (payload : Bytes) :
+    readPlanResult { a with bufSize := buf } st payload = readPlanResult a st payload := rfl
+
+/-- so is the way the handler finishes -/
+theorem readPlanResult_fin (a : Action) (f : Finish) (st : Bool) (payload : Bytes) :
+    readPlanResult { a with fin := f } st payload = readPlanResult a st payload := rfl
+
+/-- a handler that asks for the body, does not start with an empty-buffer read on a streamed body,
+    and tries to obtain more than the payload holds gets the whole payload and end-of-stream -/
+theorem readPlanResult_full (a : Action) (st : Bool) (payload : Bytes)
+    (hask : 0 < a.asReaderCalls) (hmore : payload.length < a.readTotal) (hz : (a.zeroRead && st) = false) :
+    readPlanResult a st payload = (payload, .eof) := by
+  unfold readPlanResult
+  have h1 : (decide (a.asReaderCalls > 0) && decide (a.readTotal > 0)) = true := by
+    simp only [Bool.and_eq_true, decide_eq_true_eq]; omega
+  simp only [h1, hz, if_true, Bool.false_eq_true, if_false, hmore]
+  rw [List.take_of_length_le (by omega)]
+
+/-- a handler that asks for at most as many bytes as the payload holds gets exactly the first
+    `readTotal` bytes and does not observe the end -/
+theorem readPlanResult_part (a : Action) (st : Bool) (payload : Bytes)
+    (hask : 0 < a.asReaderCalls) (hle : a.readTotal ≤ payload.length) (hz : (a.zeroRead && st) = false) :
+    readPlanResult a st payload = (payload.take a.readTotal, .none) := by
+  unfold readPlanResult
+  by_cases h0 : a.readTotal = 0
+  · simp [h0]
+  · have h1 : (decide (a.asReaderCalls > 0) && decide (a.readTotal > 0)) = true := by
+      simp only [Bool.and_eq_true, decide_eq_true_eq]; omega
+    have h2 : ¬ payload.length < a.readTotal := by omega
+    simp only [h1, hz, if_true, Bool.false_eq_true, if_false, h2]
+
+theorem readPlanResult_streamed_zero (a : Action) (P : Bytes)
+    (hc : (decide (a.asReaderCalls > 0) && a.zeroRead) = true) :
+    readPlanResult a true P = readPlanResult a false [] := by
+  simp only [Bool.and_eq_true, decide_eq_true_eq] at hc
+  unfold readPlanResult
+  simp only [hc.2, Bool.and_true, Bool.and_false, Bool.false_eq_true, if_true, if_false,
+    List.take_nil, List.length_nil]
+  split
+  · rename_i h
+    simp only [Bool.and_eq_true, decide_eq_true_eq] at h
+    simp only [h.2, if_true]
+  · rfl
+
+theorem readPlanResult_streamed_nozero (a : Action) (P : Bytes)
+    (hc : ¬ (decide (a.asReaderCalls > 0) && a.zeroRead) = true) :
+    readPlanResult a true P = readPlanResult a false P := by
+  unfold readPlanResult
+  split
+  · rename_i h
+    simp only [Bool.and_eq_true, decide_eq_true_eq] at h hc
+    have hz : a.zeroRead = false := by
+      cases hzz : a.zeroRead with
+      | false => rfl
+      | true => exact absurd ⟨h.1, hzz⟩ hc
+    simp only [hz, Bool.false_and]
+  · rfl
+
+/-- the read phase, from the exact result of `Body.readUpTo` on a reader whose remaining content
+    is `P` -/
+theorem readPhase_exact (a : Action) (body : Body) (bs : Bytes) (fin : EndState) (P : Bytes)
+    (h1 : 0 < a.readTotal → a.readTotal ≤ P.length → ∃ b r,
+      Body.readUpTo (a.readTotal + 1) body (max a.bufSize 1) a.readTotal bs fin = (P.take a.readTotal, none, b, r))
+    (h2 : P.length < a.readTotal → ∃ b r,
+      Body.readUpTo (a.readTotal + 1) body (max a.bufSize 1) a.readTotal bs fin = (P, some .eof, b, r)) :
+    rsum (readPhase a body bs fin) = readPlanResult a false P := by
+  unfold readPhase readPlanResult
+  simp only [Bool.and_false, Bool.false_eq_true, if_false]
+  split
+  · rename_i hc
+    simp only [Bool.and_eq_true, decide_eq_true_eq] at hc
+    by_cases hle : a.readTotal ≤ P.length
+    · obtain ⟨b, r, e⟩ := h1 hc.2 hle
+      have : ¬ P.length < a.readTotal := by omega
+      rw [e]
+      simp only [this, if_false]
+      rfl
+    · obtain ⟨b, r, e⟩ := h2 (by omega)
+      have : P.length < a.readTotal := by omega
+      rw [e, List.take_of_length_le (by omega)]
+      simp only [this, if_true]
+      rfl
+  · rfl
+
+theorem readPhase_done_exact (a : Action) (bs : Bytes) (fin : EndState) :
+    rsum (readPhase a .done bs fin) = readPlanResult a false [] := by
+  apply readPhase_exact a .done bs fin []
+  · intro h0 hle
+    simp only [List.length_nil] at hle
+    omega
+  · intro hlt
+    simp only [List.length_nil] at hlt
+    exact ⟨_, _, done_readUpTo bs _ _ _ fin hlt (by omega)⟩
+
+/-- no body -/
+theorem handleRead_done_exact (a : Action) (bs : Bytes) (fin : EndState) :
+    rsum (handleRead a .done bs fin) = readPlanResult a false [] := by
+  unfold handleRead
+  rw [handleZR_id a .done bs fin rfl]
+  exact readPhase_done_exact a bs fin
+
+/-- small body buffered at parse time (the empty-buffer read changes nothing) -/
+theorem handleRead_cursor_exact (a : Action) (B bs : Bytes) (fin : EndState) :
+    rsum (handleRead a (.cursor B) bs fin) = readPlanResult a false B := by
+  unfold handleRead
+  rw [handleZR_id a (.cursor B) bs fin rfl]
+  apply readPhase_exact a (.cursor B) bs fin B
+  · intro _ hle
+    rw [cursor_readUpTo _ B bs _ _ fin (by omega) (by omega)]
+    simp only [hle, if_true]
+    exact ⟨_, _, rfl⟩
+  · intro hlt
+    have : ¬ a.readTotal ≤ B.length := by omega
+    rw [cursor_readUpTo _ B bs _ _ fin (by omega) (by omega)]
+    simp only [this, if_false]
+    exact ⟨_, _, rfl⟩
+
+theorem readPhase_limited_exact (a : Action) (B after : Bytes) (fin : EndState) :
+    rsum (readPhase a (.limited B.length) (B ++ after) fin) = readPlanResult a false B := by
+  apply readPhase_exact a (.limited B.length) (B ++ after) fin B
+  · intro _ hle
+    rw [limited_readUpTo _ B after _ _ fin (by omega) (by omega)]
+    simp only [hle, if_true]
+    exact ⟨_, _, rfl⟩
+  · intro hlt
+    have : ¬ a.readTotal ≤ B.length := by omega
+    rw [limited_readUpTo _ B after _ _ fin (by omega) (by omega)]
+    simp only [this, if_false]
+    exact ⟨_, _, rfl⟩
+
+theorem readPhase_chunked_exact (a : Action) (cs : List Spec.SentChunk) (zero after : Bytes) (fin : EndState)
+    (hcs : ∀ c ∈ cs, Spec.wfChunk c = true) (hz : ZeroOk zero) :
+    rsum (readPhase a (.chunked none) (Spec.renderChunked cs zero ++ after) fin) =
+      readPlanResult a false (Spec.chunkPayload cs) := by
+  obtain ⟨_, x2, x3⟩ := chunked_readUpTo zero after hz (max a.bufSize 1) fin (by omega)
+    (a.readTotal + 1) none _ _ a.readTotal (ChunkPos.line cs hcs) (by omega)
+  apply readPhase_exact a (.chunked none) _ fin (Spec.chunkPayload cs)
+  · intro _ hle
+    obtain ⟨ic', S', e, _⟩ := x2 hle
+    exact ⟨_, _, e⟩
+  · intro hlt
+    exact ⟨_, _, x3 hlt⟩
+
+/-- streamed Content-Length body, entirely on the wire -/
+theorem handleRead_limited_exact (a : Action) (B after : Bytes) (fin : EndState) :
+    rsum (handleRead a (.limited B.length) (B ++ after) fin) = readPlanResult a true B := by
+  unfold handleRead handleZR
+  by_cases hc : (decide (a.asReaderCalls > 0) && a.zeroRead) = true
+  · simp only [hc, if_true, zeroReadEffect_limited]
+    rw [readPlanResult_streamed_zero a B hc]
+    exact readPhase_done_exact a after fin
+  · simp only [hc]
+    rw [readPlanResult_streamed_nozero a B hc]
+    exact readPhase_limited_exact a B after fin
+
+/-- chunked body, entirely on the wire -/
+theorem handleRead_chunked_exact (a : Action) (cs : List Spec.SentChunk) (zero after : Bytes) (fin : EndState)
+    (hcs : ∀ c ∈ cs, Spec.wfChunk c = true) (hz : ZeroOk zero) :
+    rsum (handleRead a (.chunked none) (Spec.renderChunked cs zero ++ after) fin) =
+      readPlanResult a true (Spec.chunkPayload cs) := by
+  unfold handleRead handleZR
+  by_cases hc : (decide (a.asReaderCalls > 0) && a.zeroRead) = true
+  · simp only [hc, if_true, zeroReadEffect_chunked cs zero after fin hcs hz]
+    rw [readPlanResult_streamed_zero a _ hc]
+    exact readPhase_done_exact a after fin
+  · simp only [hc]
+    rw [readPlanResult_streamed_nozero a _ hc]
+    exact readPhase_chunked_exact a cs zero after fin hcs hz
+
+/-- which reader a Content-Length framing starts with, in terms of `streamed` -/
+theorem streamed_of_buffered (head : Head) (ows : List (Bytes × Bytes)) (B : Bytes)
+    (hfr : framingOf head.headers = .ok ⟨.buffered B.length, some B.length, false⟩) :
+    streamed ⟨head, ows, .plain B⟩ = false := by
+  have hk := ((framingOf_kind_rule _ _ hfr).1 B.length rfl).1
+  have he : expects ⟨head, ows, .plain B⟩ = false := C18.expects_false_of_framing _ _ _ hfr
+  have hd : decide (Extracted.smallBodyLimit < B.length) = false := by
+    simp only [decide_eq_false_iff_not]; omega
+  show (B.length != 0 && (decide (Extracted.smallBodyLimit < B.length) || expects ⟨head, ows, .plain B⟩)) = false
+  rw [he, hd]
+  simp
+
+theorem streamed_of_limited (head : Head) (ows : List (Bytes × Bytes)) (B : Bytes)
+    (hfr : framingOf head.headers = .ok ⟨.limited B.length, some B.length, expects ⟨head, ows, .plain B⟩⟩) :
+    streamed ⟨head, ows, .plain B⟩ = true := by
+  obtain ⟨h0, hk⟩ := (framingOf_kind_rule _ _ hfr).2 B.length rfl
+  show (B.length != 0 && (decide (Extracted.smallBodyLimit < B.length) || expects ⟨head, ows, .plain B⟩)) = true
+  simp only [Bool.and_eq_true, Bool.or_eq_true, decide_eq_true_eq, bne_iff_ne, ne_eq]
+  exact ⟨h0, hk⟩
+
+/-- One iteration of the connection loop on an `expectBodied` message, whatever follows it, with
+    any script: the request is delivered with its declared length, and its handler — the script's
+    entry `idx` — obtains exactly `readPlanResult`. -/
+theorem expectBodied_reads_step (m : CMsg) (hm : expectBodied m)
+    (fuel idx : Nat) (s : St) (rest : Bytes) (fin : EndState) (script : Script) :
+    ∃ (s' : St) (d : Delivered),
+      runLoop (fuel + 1) idx s (Spec.renderHead m.head m.ows ++ (m.body.wire ++ rest)) fin script =
+        runLoop fuel (idx + 1) s' rest fin script ∧
+      s'.delivered = s.delivered ++ [d] ∧
+      d.bodyLength = m.body.declared ∧
+      (d.bodyRead, d.readEnd) = readPlanResult (script idx) (streamed m) m.body.payload := by
+  obtain ⟨head, ows, body⟩ := m
+  obtain ⟨hwf, hows, hbody, hlast, hver⟩ := hm
+  cases body with
+  | plain B =>
+    rcases hbody with hfr | hfr | ⟨hB, hfr⟩
+    · obtain ⟨s', d, h1, h2, h3, _, h5⟩ :=
+        runLoop_reads_step fuel idx s head ows B rest fin script _ (.cursor B) [] hwf hows hfr
+          (by intro n hn; cases hn; exact Nat.le_refl _) (by simp [initialBody])
+          (handle_cursor s head _ false (script idx) B rest fin) hlast hver
+      refine ⟨s', d, h1, h2, (Prod.mk.inj (Prod.mk.inj (Prod.mk.inj (Prod.mk.inj h3).2).2).2).2, ?_⟩
+      rw [h5, streamed_of_buffered head ows B hfr]
+      exact handleRead_cursor_exact (script idx) B rest fin
+    · obtain ⟨s', d, h1, h2, h3, _, h5⟩ :=
+        runLoop_reads_step fuel idx s head ows B rest fin script _ (.limited B.length) B hwf hows hfr
+          (by intro n hn; cases hn) rfl
+          (handle_limited s head _ false (script idx) B rest fin) hlast hver
+      refine ⟨s', d, h1, h2, (Prod.mk.inj (Prod.mk.inj (Prod.mk.inj (Prod.mk.inj h3).2).2).2).2, ?_⟩
+      rw [h5, streamed_of_limited head ows B hfr]
+      exact handleRead_limited_exact (script idx) B rest fin
+    · subst hB
+      obtain ⟨s', d, h1, h2, h3, _, h5⟩ :=
+        runLoop_reads_step fuel idx s head ows [] rest fin script _ .done [] hwf hows hfr
+          (by intro n hn; cases hn) rfl
+          (handle_done s head _ false (script idx) rest fin) hlast hver
+      refine ⟨s', d, h1, h2, (Prod.mk.inj (Prod.mk.inj (Prod.mk.inj (Prod.mk.inj h3).2).2).2).2, ?_⟩
+      rw [h5]
+      exact handleRead_done_exact (script idx) rest fin
+  | chunked cs zero =>
+    obtain ⟨hfr, hcs, hz⟩ := hbody
+    obtain ⟨s', d, h1, h2, h3, _, h5⟩ :=
+      runLoop_reads_step fuel idx s head ows (Spec.renderChunked cs zero) rest fin script _ (.chunked none)
+        (Spec.renderChunked cs zero) hwf hows hfr
+        (by intro n hn; cases hn) rfl
+        (handle_chunked s head _ false (script idx) cs zero rest fin hcs hz) hlast hver
+    refine ⟨s', d, h1, h2, (Prod.mk.inj (Prod.mk.inj (Prod.mk.inj (Prod.mk.inj h3).2).2).2).2, ?_⟩
+    rw [h5]
+    exact handleRead_chunked_exact (script idx) cs zero rest fin hcs hz
+  | absent =>
+    obtain ⟨s', d, h1, h2, h3, _, h5⟩ :=
+      runLoop_reads_step fuel idx s head ows [] rest fin script _ .done [] hwf hows hbody
+        (by intro n hn; cases hn) rfl
+        (handle_done s head _ false (script idx) rest fin) hlast hver
+    refine ⟨s', d, h1, h2, (Prod.mk.inj (Prod.mk.inj (Prod.mk.inj (Prod.mk.inj h3).2).2).2).2, ?_⟩
+    rw [h5]
+    exact handleRead_done_exact (script idx) rest fin
+
+/-- **The body the application reads is exactly the body the client sent — end to end.**
+    A pipeline of any number of requests — each with a Content-Length body of any size (buffered at
+    parse time or streamed), a chunked body of any chunking, or no body; with or without
+    `Expect: 100-continue` — answered by ANY application script (each handler asking for the body or
+    not, trying to obtain any number of bytes through a buffer of any size, with or without an
+    empty-buffer read first, then answering, dropping, taking the raw writer, upgrading or failing in
+    any way).  One record is delivered per request, and for every `i` the `i`-th handler obtained
+    EXACTLY `readPlanResult (script i)` of the `i`-th request's own content, and `body_length()`
+    reported exactly the declared length (`none` for a chunked or absent body): the handler that
+    reads to the end gets the payload — for a chunked body the concatenated chunk data, no size
+    line, extension or CRLF — and then end-of-stream, never a byte of the next request; the one that
+    reads 7 bytes through a 3-byte buffer gets exactly the first 7; and whatever one handler does
+    with its body (nothing, part, all, the empty-buffer read that discards it) changes nothing of what
+    the later handlers obtain.  The server closes after the client's orderly close. -/
+theorem pipeline_reads_exact (msgs : List CMsg) (script : Script)
+    (hgood : ∀ m ∈ msgs, expectBodied m) :
+    let t := Conn.run ((msgs.map cmsgBytes).flatten) .eof script
+    t.delivered.length = msgs.length ∧
+      (∀ (i : Nat) (d : Delivered) (m : CMsg), t.delivered[i]? = some d → msgs[i]? = some m →
+        (d.bodyRead, d.readEnd) = readPlanResult (script i) (streamed m) m.body.payload ∧
+        d.bodyLength = m.body.declared) ∧
+      t.ending = .closed := by
+  intro t
+  have hlen := generic_pipeline_length_ge CMsg.head CMsg.ows (fun m => m.body.wire) msgs
+  obtain ⟨s', ds, hrun, hdel, hdl, hres⟩ :=
+    runLoop_reads_pipeline CMsg.head CMsg.ows (fun m => m.body.wire) (fun m => m.body.declared)
+      (fun a m => readPlanResult a (streamed m) m.body.payload) .eof msgs
+      (fun m hm fuel idx s rest script => expectBodied_reads_step m (hgood m hm) fuel idx s rest .eof script)
+      (((msgs.map cmsgBytes).flatten).length + 1) 0 {} [] script
+      (by exact Nat.le_succ_of_le hlen)
+  obtain ⟨k, hk⟩ : ∃ k, ((msgs.map cmsgBytes).flatten).length + 1 - msgs.length = k + 1 :=
+    ⟨((msgs.map cmsgBytes).flatten).length - msgs.length, by
+      have : msgs.length ≤ ((msgs.map cmsgBytes).flatten).length := hlen
+      omega⟩
+  have hdel' : s'.delivered = ds := by rw [hdel]; exact List.nil_append _
+  have ht : t = s'.finish .closed := by
+    have := hrun
+    rw [List.append_nil, hk] at this
+    exact this
+  rw [ht]
+  refine ⟨?_, ?_, rfl⟩
+  · rw [St.finish_delivered, hdel', hdl]
+  · intro i d m h1 h2
+    rw [St.finish_delivered, hdel'] at h1
+    have := hres i d m h1 h2
+    rw [Nat.zero_add] at this
+    exact ⟨this.2, this.1⟩
+
+/-- the same for messages without the expectation (`C09.wellBodied`, the hypothesis of
+    `C09.pipeline_with_any_bodies`, which this theorem strengthens from "a prefix" to "exactly") -/
+theorem pipeline_reads_exact_wellBodied (msgs : List CMsg) (script : Script)
+    (hgood : ∀ m ∈ msgs, wellBodied m) :
+    let t := Conn.run ((msgs.map cmsgBytes).flatten) .eof script
+    t.delivered.length = msgs.length ∧
+      (∀ (i : Nat) (d : Delivered) (m : CMsg), t.delivered[i]? = some d → msgs[i]? = some m →
+        (d.bodyRead, d.readEnd) = readPlanResult (script i) (streamed m) m.body.payload ∧
+        d.bodyLength = m.body.declared) ∧
+      t.ending = .closed :=
+  pipeline_reads_exact msgs script (fun m hm => C18.wellBodied_expectBodied m (hgood m hm))
+
+/-- Handlers that read to the end get whole bodies.  If every handler asks for its body
+    (`asReaderCalls > 0`), tries to obtain MORE bytes than its request's payload holds (so that it
+    observes the end), and does not start with an empty-buffer read on a streamed body — with a
+    buffer of ANY size, `bufSize = 0` (which the model takes for 1) included — then the bodies the
+    handlers obtained are, in order, exactly the payloads the client sent, and every handler saw
+    end-of-stream. -/
+theorem pipeline_full_reads_get_whole_bodies (msgs : List CMsg) (script : Script)
+    (hgood : ∀ m ∈ msgs, expectBodied m)
+    (hfull : ∀ (i : Nat) (m : CMsg), msgs[i]? = some m →
+      0 < (script i).asReaderCalls ∧ m.body.payload.length < (script i).readTotal ∧
+      ((script i).zeroRead && streamed m) = false) :
+    let t := Conn.run ((msgs.map cmsgBytes).flatten) .eof script
+    t.delivered.map (·.bodyRead) = msgs.map (·.body.payload) ∧
+      (∀ d ∈ t.delivered, d.readEnd = .eof) ∧
+      t.delivered.map (·.bodyLength) = msgs.map (·.body.declared) := by
+  intro t
+  obtain ⟨hlen, hres, _⟩ := pipeline_reads_exact msgs script hgood
+  have key : ∀ (i : Nat) (d : Delivered) (m : CMsg), t.delivered[i]? = some d → msgs[i]? = some m →
+      d.bodyRead = m.body.payload ∧ d.readEnd = .eof ∧ d.bodyLength = m.body.declared := by
+    intro i d m h1 h2
+    obtain ⟨e1, e2⟩ := hres i d m h1 h2
+    obtain ⟨f1, f2, f3⟩ := hfull i m h2
+    rw [readPlanResult_full _ _ _ f1 f2 f3] at e1
+    exact ⟨(Prod.mk.inj e1).1, (Prod.mk.inj e1).2, e2⟩
+  have hget : ∀ i, i < msgs.length → ∃ d m, t.delivered[i]? = some d ∧ msgs[i]? = some m := by
+    intro i hi
+    exact ⟨t.delivered[i]'(by rw [hlen]; exact hi), msgs[i], List.getElem?_eq_getElem _, List.getElem?_eq_getElem _⟩
+  refine ⟨?_, ?_, ?_⟩
+  · apply List.ext_getElem?
+    intro i
+    by_cases hi : i < msgs.length
+    · obtain ⟨d, m, h1, h2⟩ := hget i hi
+      rw [List.getElem?_map, List.getElem?_map, h1, h2, Option.map_some, Option.map_some, (key i d m h1 h2).1]
+    · rw [List.getElem?_eq_none (by rw [List.length_map, hlen]; omega),
+        List.getElem?_eq_none (by rw [List.length_map]; omega)]
+  · intro d hd
+    obtain ⟨i, hi, rfl⟩ := List.getElem_of_mem hd
+    have hi' : i < msgs.length := by rw [← hlen]; exact hi
+    exact (key i _ msgs[i] (List.getElem?_eq_getElem _) (List.getElem?_eq_getElem _)).2.1
+  · apply List.ext_getElem?
+    intro i
+    by_cases hi : i < msgs.length
+    · obtain ⟨d, m, h1, h2⟩ := hget i hi
+      rw [List.getElem?_map, List.getElem?_map, h1, h2, Option.map_some, Option.map_some, (key i d m h1 h2).2.2]
+    · rw [List.getElem?_eq_none (by rw [List.length_map, hlen]; omega),
+        List.getElem?_eq_none (by rw [List.length_map]; omega)]
+
+/-! non-vacuity: a concrete pipeline of three requests — a POST with a chunked body of two chunks
+    (the second with an extension and an upper-case size with a leading zero; 15 bytes of content),
+    a PUT with a 5-byte Content-Length body (buffered at parse time), a bare GET -/
+
+def exChunked : CMsg :=
+  ⟨⟨⟨b!"POST"⟩, b!"/up", ⟨1, 1⟩, [⟨b!"Transfer-Encoding", b!"chunked"⟩]⟩, [(b!" ", [])],
+    .chunked [⟨b!"5", [], b!"hello"⟩, ⟨b!"0A", b!";x=y", b!"0123456789"⟩] b!"0"⟩
+
+def exPlain : CMsg :=
+  ⟨⟨⟨b!"PUT"⟩, b!"/p", ⟨1, 1⟩, [⟨b!"Content-Length", b!"5"⟩]⟩, [], .plain b!"world"⟩
+
+def exGet : CMsg := ⟨⟨⟨b!"GET"⟩, b!"/next", ⟨1, 1⟩, []⟩, [], .absent⟩
+
+/-- the hypotheses of `pipeline_reads_exact_wellBodied` hold of it -/
+theorem ex_wellBodied : ∀ m ∈ [exChunked, exPlain, exGet], wellBodied m := by
+  intro m hm
+  simp only [List.mem_cons, List.not_mem_nil, or_false] at hm
+  rcases hm with rfl | rfl | rfl
+  · refine ⟨by decide, by decide, ?_, by decide, by decide⟩
+    show framingOf exChunked.head.headers = .ok ⟨.chunked, none, false⟩ ∧
+      (∀ c ∈ [(⟨b!"5", [], b!"hello"⟩ : Spec.SentChunk), ⟨b!"0A", b!";x=y", b!"0123456789"⟩],
+        Spec.wfChunk c = true) ∧
+      (usizeFromHex b!"0" = some 0 ∧ (b!"0").all (fun b => b != 13 && b != 59 && b < 128) = true ∧
+        trim b!"0" = b!"0")
+    decide
+  · refine ⟨by decide, by decide, ?_, by decide, by decide⟩
+    show framingOf exPlain.head.headers = .ok ⟨.buffered (b!"world").length, some (b!"world").length, false⟩ ∨
+      framingOf exPlain.head.headers = .ok ⟨.limited (b!"world").length, some (b!"world").length, false⟩ ∨
+      (b!"world" = [] ∧ framingOf exPlain.head.headers = .ok ⟨.empty, some 0, false⟩)
+    decide
+  · refine ⟨by decide, by decide, ?_, by decide, by decide⟩
+    show framingOf exGet.head.headers = .ok ⟨.empty, none, false⟩
+    decide
+
+/-- the bytes on the wire -/
+def exWire : Bytes :=
+  b!"POST /up HTTP/1.1\r\nTransfer-Encoding: chunked\r\n\r\n5\r\nhello\r\n0A;x=y\r\n0123456789\r\n0\r\n\r\nPUT /p HTTP/1.1\r\nContent-Length:5\r\n\r\nworldGET /next HTTP/1.1\r\n\r\n"
+
+theorem ex_wire : ([exChunked, exPlain, exGet].map cmsgBytes).flatten = exWire := by decide
+
+/-- the chunked body is streamed, the 5-byte body and the absent one are not -/
+example : [exChunked, exPlain, exGet].map streamed = [true, false, false] := by decide
+
+/-- so the theorem applies to it, with EVERY script: three requests delivered, and the three
+    handlers obtain `readPlanResult` of `hello0123456789`, of `world` and of nothing -/
+example (script : Script) :
+    let t := Conn.run exWire .eof script
+    t.delivered.map (fun d => (d.bodyRead, d.readEnd)) =
+      [readPlanResult (script 0) true b!"hello0123456789", readPlanResult (script 1) false b!"world",
+        readPlanResult (script 2) false []] ∧
+    t.delivered.map (·.bodyLength) = [none, some 5, none] := by
+  intro t
+  obtain ⟨hlen, hres, _⟩ := pipeline_reads_exact_wellBodied [exChunked, exPlain, exGet] script ex_wellBodied
+  rw [ex_wire] at hlen hres
+  match hd : t.delivered, hlen with
+  | [d0, d1, d2], _ =>
+    have hd' : (Conn.run exWire .eof script).delivered = [d0, d1, d2] := hd
+    have h0 := hres 0 d0 exChunked (by rw [hd']; rfl) rfl
+    have h1 := hres 1 d1 exPlain (by rw [hd']; rfl) rfl
+    have h2 := hres 2 d2 exGet (by rw [hd']; rfl) rfl
+    simp only [List.map_cons, List.map_nil, h0.1, h1.1, h2.1, h0.2, h1.2, h2.2]
+    exact ⟨rfl, rfl⟩
+
+/-- a script that reads 8 bytes through a 3-byte buffer from each body and then drops the request -/
+def exRead8 : Trace := Conn.run exWire .eof (fun _ => ⟨1, 8, 3, .drop, false⟩)
+
+/-- the model run with it: the first handler gets exactly the first 8 bytes of the chunks' content
+    (5 of the first chunk, 3 of the second) and does not see the end; the second asked for more than
+    the 5 bytes there are: all 5, then end-of-stream — not a byte of the GET that follows; the
+    third: nothing, end-of-stream -/
+example :
+    exRead8.delivered.map (fun d => (d.bodyRead, d.readEnd)) =
+        [(b!"hello012", .none), (b!"world", .eof), ([], .eof)] ∧
+      exRead8.delivered.map (·.bodyLength) = [none, some 5, none] ∧ exRead8.ending = .closed := by
+  set_option maxRecDepth 20000 in decide
+
+/-- and what `readPlanResult` says of that script -/
+example : [exChunked, exPlain, exGet].map
+      (fun m => readPlanResult ⟨1, 8, 3, .drop, false⟩ (streamed m) m.body.payload) =
+    [(b!"hello012", .none), (b!"world", .eof), ([], .eof)] := by decide
+
+/-- handlers that read to the end (100 bytes asked, buffer sizes 4096, 1 and 0): whole payloads -/
+example :
+    (Conn.run exWire .eof (fun i => ⟨1, 100, [4096, 1, 0].getD i 7, .drop, false⟩)).delivered.map
+        (fun d => (d.bodyRead, d.readEnd)) =
+      [(b!"hello0123456789", .eof), (b!"world", .eof), ([], .eof)] := by
+  set_option maxRecDepth 20000 in decide
+
+/-- the corners of the model, by computation.  (1) Why `readPlanResult` needs `streamed`: the same
+    action — an empty-buffer read first, then 8 bytes — on the chunked body yields NOTHING and
+    end-of-stream (the `0` returned by the empty-buffer read trips the EOF fuse and the body is
+    discarded), on the buffered 5-byte body yields the whole body: what a handler obtains is not a
+    function of the action and the content alone.  The pipeline stays in step all the same. -/
+example :
+    (Conn.run exWire .eof (fun _ => ⟨1, 8, 3, .drop, true⟩)).delivered.map (fun d => (d.url, d.bodyRead, d.readEnd)) =
+      [(b!"/up", [], .eof), (b!"/p", b!"world", .eof), (b!"/next", [], .eof)] := by
+  set_option maxRecDepth 20000 in decide
+
+/-- (2) `readTotal > 0` without any `as_reader()` call: nothing is read; (3) asking for exactly
+    the 5 bytes of the body: all 5, and the end is not observed -/
+example :
+    (Conn.run exWire .eof (fun i => if i = 1 then ⟨2, 5, 2, .drop, false⟩ else ⟨0, 8, 3, .drop, false⟩)).delivered.map
+        (fun d => (d.bodyRead, d.readEnd)) =
+      [([], .none), (b!"world", .none), ([], .none)] := by
+  set_option maxRecDepth 20000 in decide
 
 end TH.Props.C03
